@@ -211,9 +211,6 @@ func Run(cfg *hx.Config) error {
 		note := ""
 		if err != nil {
 			nbroken++
-			if nbroken > 5 {
-				return fmt.Errorf("case %d (%s): %v (giving up after %d broken cases)", cfg.Emitted(), kind, err, nbroken)
-			}
 			note = err.Error()
 			obs = []any{hx.Pair{A: int64(0), B: []any{"EOther"}}, hx.Pair{A: int64(0), B: []any{"EOther"}}}
 		}
@@ -233,11 +230,16 @@ func Run(cfg *hx.Config) error {
 		return nil
 	}
 	for _, ops := range fixedCases(cfg.Tier) {
+		if nbroken >= 4 {
+			break
+		}
 		if err := emit("fixed", ops, nil); err != nil {
 			return err
 		}
 	}
-	for i := 0; i < cfg.N; i++ {
+	for i := 0; i < cfg.N && nbroken < 4; i++ {
+		// (a case in which the implementation stopped answering costs a time-out; after a few
+		// of them the run ends early - what was emitted is reported and shrunk as usual)
 		ops, tags := gen(cfg, i)
 		if err := emit("random", ops, tags); err != nil {
 			return err
